@@ -39,12 +39,25 @@ func init() {
 			mk(func(k *udpCase) {
 				k.Scripts = []sim.Script{{ClientWrites: many, ServerWrites: []int{10}, MaxRead: 65536, ServerStallMs: 3000}}
 			})
-			// a long path (300 ms round trip) with a large window in flight and single losses
+			// paced writer (one segment in flight at a time) against a reader that stalls until the
+			// receive window is exactly closed with nothing outstanding: only a later ack with an
+			// unchanged cumulative ack can reopen it
+			mk(func(k *udpCase) {
+				paced := make([]int, 4300)
+				for j := range paced {
+					paced[j] = 16
+				}
+				k.Multiplex = 1
+				k.ClientPattern, k.ServerPattern = patJSON(nil), patJSON(nil)
+				k.Scripts = []sim.Script{{ClientWrites: paced, ServerWrites: []int{10}, MaxRead: 65536, ServerStallMs: 9000, WriteGapUs: 1000}}
+			})
+			// a long, bandwidth-limited path (300 ms round trip, 1 MB/s) with single losses
 			mk(func(k *udpCase) {
 				k.Faults.LatencyMs = 150
-				k.Faults.DropC2S = []int{40, 41, 90}
+				k.Faults.RateKBps = 1000
+				k.Faults.DropC2S = []int{300, 620}
 				k.Faults.DropS2C = []int{30}
-				k.Scripts = []sim.Script{{ClientWrites: []int{65536, 65536, 65536, 65536}, ServerWrites: []int{65536, 65536}, MaxRead: 65536}}
+				k.Scripts = []sim.Script{{ClientWrites: []int{65536, 65536, 65536, 65536, 65536, 65536, 65536, 65536, 65536, 65536}, ServerWrites: []int{65536, 65536}, MaxRead: 65536}}
 			})
 			// the open request (with a piggy-backed first write) is lost; the open response is lost
 			mk(func(k *udpCase) {
